@@ -785,3 +785,12 @@ def _register_shared_args():
 
 
 # _register_shared_args() is called by the driver after this module is fully imported (no import cycles)
+
+
+# "with patch indices to the patch named": which of the three patch definitions is used when several are given (C09 unit)
+def _register_shared_round9():
+    unit(P, "PatchMode.determine", fuc=["yaw.catalog.catalog:PatchMode.determine", "yaw.catalog.catalog:get_patch_centers"],
+         cases=[dict(c=c, nm=nm, num=num) for c in (False, True) for nm in (False, True) for num in (False, True)])(_C09.u_determine)
+
+
+# _register_shared_round9() is called by the driver after this module is fully imported (no import cycles)
